@@ -366,7 +366,10 @@ def frame_cases(draw):
     spec = draw(gb.member_specs(types=("SEG2", "SEG3")))
     split = draw(st.integers(3, 7)) / 10.0
     F = [draw(st.integers(-4, 4)) / 100.0 for _ in range(3)]
-    return dict(member=spec, split=split, F=F, hinged=draw(st.booleans()))
+    # how: the connection is entered through the named helper, or through add_connection in two calls that
+    # partition the tied unknowns (mask) in either order
+    return dict(member=spec, split=split, F=F, hinged=draw(st.booleans()), how=draw(st.sampled_from(["api", "api", "two_calls"])),
+                mask=draw(st.lists(st.booleans(), min_size=6, max_size=6)), rev=draw(st.booleans()))
 
 
 def check_frame(case, rec):
@@ -398,13 +401,26 @@ def check_frame(case, rec):
     rec.require(nm.size == 2, "duplicated_joint_nodes", f"expected 2 coincident joint nodes, found {nm.size}", **sig)
     unk = simu.Get_unknowns()
     simu.add_dirichlet(n1, [0.0] * len(unk), unk)
+    two_calls = case.get("how") == "two_calls" and dim > 1
+    # the unknowns the named helpers tie (add_connection_hinged ties the translations in 2D, everything in 3D)
+    tied = list(unk) if (not case["hinged"] or dim == 3) else list(unk[:dim])
+    if two_calls:
+        first = [k for k, m in zip(tied, case["mask"]) if m]
+        if not first or len(first) == len(tied):
+            first = tied[:1]
+        parts = [first, [k for k in tied if k not in first]]
+        for part in (parts[::-1] if case.get("rev") else parts):
+            simu.add_connection(nm, part, "verif")
+        rec.label("frame:two_calls")
     if case["hinged"]:
-        simu.add_connection_hinged(nm)
+        if not two_calls:
+            simu.add_connection_hinged(nm)
         # a hinge needs a support at the tip to stay stable
         simu.add_dirichlet(n2, [0.0] * (dim), unk[:dim])
         Fnode = nm[:1]
     else:
-        simu.add_connection_fixed(nm)
+        if not two_calls:
+            simu.add_connection_fixed(nm)
         Fnode = n2
     _, _, _, frame = gb.build_member(spec)
     Fg = frame.T @ np.array(case["F"], float)
@@ -414,7 +430,7 @@ def check_frame(case, rec):
     dof_n = len(unk)
     U = u[: mesh.Nn * dof_n].reshape(mesh.Nn, dof_n)
     scale = np.abs(U).max() + 1e-9
-    ncon = dof_n if not case["hinged"] else dim
+    ncon = dof_n if not case["hinged"] else (len(tied) if two_calls else dim)
     rec.close(U[nm[0], :ncon] - U[nm[1], :ncon], scale, 1e-9, "connection_constraint",
               f"{kind} {dim}D: connected dofs differ across the joint: {U[nm[0]]} vs {U[nm[1]]}", **sig)
     rec.close(U[n1[0]], scale, 1e-12, "clamp_held", "", **sig)
